@@ -10,10 +10,17 @@
     number of file-modifying transactions (SQLite file change counter).
 
     Projection notes.  The model does not model primary key assignment: rtree ids are mapped by the
-    harness to the position of the row with that key (ORDER BY rowid); a NULL primary key in the input
-    stays [VNull] in the observation when the file holds the expected auto-assigned key.  A time.Time
-    attribute (column declared DATE / DATETIME / TIMESTAMP) is [VTime ns]: the instant in nanoseconds; the
-    harness reads the cell raw (the driver's text layout) and parses it. *)
+    harness to the position of the row with that key (rows ORDER BY rowid = the order the table stores
+    them in, which is NOT the key order when the key is no rowid alias: INT / TEXT PRIMARY KEY) and listed
+    in the order of these positions; a NULL primary key in the input stays [VNull] in the observation when
+    the file holds the expected auto-assigned key.  A time.Time attribute (column declared DATE / DATETIME /
+    TIMESTAMP) is [VTime ns]: the instant in nanoseconds; the harness reads the cell raw (the driver's text
+    layout) and parses it.  Every attribute cell is read raw together with SQLite's typeof: a TEXT cell is
+    [VText id], a BLOB cell [VBlob id] (ids of the harness's text / blob pools; the 16-digit texts of a TEXT
+    primary key have ids from 2000000).  A Go bool in a feature (what ReadFeatures delivers for a BOOLEAN cell)
+    is printed as the integer the driver binds it as, [VInt 1] / [VInt 0], and the target cell must hold
+    that integer.  In the via-source cases the features the real writer received came from the real
+    ReadFeatures on a source holding these rows. *)
 From Coq Require Import ZArith NArith List Bool String.
 From Texel Require Import Prelude.Corr.
 From Texel Require Export Gpkg.Model.
